@@ -552,4 +552,12 @@ theorem evalUn_rel (op : UnOp) (o o' : Out) (hr : relV o.1 o'.1 = true) (hs : sh
     · simp [callUn, isNull, pure, Except.pure] at u1 u2
       subst u1; subst u2; simp [relV]
 
+/-! ### binary operators -/
+
+theorem shortCircuit_relC (op : BinOp) {l l' r r' : Val} (hl : relC l l' = true) (hr : relC r r' = true) :
+    shortCircuit op l r [] [] = shortCircuit op l' r' [] [] := by
+  cases l <;> cases l' <;> simp [relC] at hl <;> cases r <;> cases r' <;> simp [relC] at hr <;>
+    (try subst hl) <;> (try subst hr) <;> (try simp [shortCircuit, isKnown, hasErrors])
+  all_goals ((try cases ‹Bool›) <;> (try cases ‹Bool›) <;> simp)
+
 end HclModel.Proofs
